@@ -124,6 +124,14 @@ def _scheme(snapshot, kind, name, container):
     return 'cleanup(other-name)'
 
 
+def _ctx_name(ctx):
+    """'_on_modified>_synchronize>_terminate' -> '_synchronize>_terminate'."""
+    ctx = list(ctx)
+    if '_synchronize' in ctx:
+        ctx = ctx[ctx.index('_synchronize'):]
+    return '>'.join(ctx)
+
+
 class Provenance:
     """Names the code path that created / moved a link in the current step
     (from the observers of c13_fakes; never used for the verdict)."""
@@ -137,8 +145,9 @@ class Provenance:
             else:                      # replace(src, dst): dst is the new link
                 link = args[1] if len(args) > 1 else None
                 src = args[0] if args else None
-                self.by_link.setdefault(('moved-from', src), '>'.join(ctx))
-            self.by_link[('made', link)] = '>'.join(ctx) if ctx else self.step
+                self.by_link.setdefault(('moved-from', src),
+                                        _ctx_name(ctx) or self.step)
+            self.by_link[('made', link)] = _ctx_name(ctx) or self.step
         self.calls = call_log
 
     def made(self, path):
@@ -155,6 +164,8 @@ class Oracle:
         self.node = node
         self.ident = {}
         self.tainted = {}      # container -> reason first seen
+        self.origin = {}       # (dir kind, link name, target) -> who made it
+        self.gone_finished = set()
         self.reach = {}
         self.prev = Snapshot(node, self.ident)
         self._note_taint(self.prev)
@@ -163,13 +174,30 @@ class Oracle:
         self.reach[name] = self.reach.get(name, 0) + n
 
     def _note_taint(self, snap):
+        # a container is the life time of its directory: once the cleanup
+        # service removed it, a directory of the same name is a new container
+        for c in [c for c in self.ident if c not in snap.apps]:
+            del self.ident[c]
+        for c in [c for c in self.tainted if c not in snap.apps]:
+            if self.tainted.pop(c).startswith('finished'):
+                self.gone_finished.add(c)
         for c in snap.apps:
-            if c in self.tainted:
-                continue
+            if c in self.gone_finished:
+                self.gone_finished.discard(c)
+                self._count('obs_finished_generation_reconfigured_after_'
+                            'its_cleanup_completed')
             if snap.flags[c]:
-                self.tainted[c] = 'flag:' + '+'.join(snap.flags[c])
-            elif any(t == c for t in snap.cleanup.values()):
-                self.tainted[c] = 'cleanup-link'
+                self.tainted[c] = 'finished'
+            elif c not in self.tainted and any(
+                    t == c for t in snap.cleanup.values()):
+                self.tainted[c] = 'was-in-cleanup'
+
+    def before(self):
+        """Observe the state right before a handler / actor step (cache
+        files may have changed since the last step)."""
+        self.prev = Snapshot(self.node, self.ident)
+        self._note_taint(self.prev)
+        return self.prev
 
     # ------------------------------------------------------------------
     def step(self, kind, step_name, prov, event=None, sync=False,
@@ -181,6 +209,7 @@ class Oracle:
         prev = self.prev
         cur = Snapshot(self.node, self.ident)
         out = []
+        self._note_origin(prev, cur, prov)
         out += self._i1(cur, prov)
         out += self._i3(prev, cur, prov)
         if kind == 'manager':
@@ -199,6 +228,16 @@ class Oracle:
             out = [(m, msg, witness) for (m, msg) in out]
         return out
 
+    def _note_origin(self, prev, cur, prov):
+        for kind, before, after, base in (
+                ('running', prev.running, cur.running, self.node.running_dir),
+                ('cleanup', prev.cleanup, cur.cleanup, self.node.cleanup_dir)):
+            for name, target in after.items():
+                if before.get(name) == target:
+                    continue
+                who = prov.made(os.path.join(base, name)) or prov.step
+                self.origin[(kind, name, target)] = who
+
     # -- I1 ---------------------------------------------------------------
     def _i1(self, cur, prov):
         out = []
@@ -208,10 +247,7 @@ class Oracle:
             if len(links) > 1:
                 parts = []
                 for kind, name in links:
-                    path = os.path.join(
-                        self.node.running_dir if kind == 'running'
-                        else self.node.cleanup_dir, name)
-                    who = prov.made(path) or 'earlier-step'
+                    who = self.origin.get((kind, name, c), 'unknown')
                     parts.append('%s@%s' % (_scheme(cur, kind, name, c), who))
                 mech = 'multi-link:' + '+'.join(sorted(parts))
                 out.append((mech, 'container %s is the target of %d links: %r'
@@ -238,7 +274,7 @@ class Oracle:
             who = prov.made(os.path.join(self.node.running_dir, name)) \
                 or prov.step
             reason = self.tainted[target]
-            out.append(('restarted:%s@%s' % (reason, who),
+            out.append(('restarted-%s@%s' % (reason, who),
                         'container %s (%s) became the running target of %s '
                         'again' % (target, reason, name)))
         return out
@@ -336,11 +372,10 @@ class Oracle:
                 if link is None or link not in cur.apps or ident is None \
                         or ident[0] != inst or ident[1] != gen:
                     out.append((
-                        'sync:cached-not-running:new-generation,%s,%s'
-                        % (old, how(inst)),
+                        'sync:cached-not-running:new-generation:%s' % old,
                         'cache/%s (generation %d, configurable, never '
                         'configured) has running link %r after the '
-                        'synchronisation' % (inst, gen, link)))
+                        'synchronisation [%s]' % (inst, gen, link, how(inst))))
                 continue
             finished = bool(prev.flags.get(c)) or c in self.tainted
             in_cleanup = any(t == c for t in prev.cleanup.values())
@@ -349,26 +384,24 @@ class Oracle:
                 if prev.running.get(inst) != c:
                     self._count('i2_idle_container_evaluations')
                 if link != c:
-                    state = 'was-running' if prev.running.get(inst) == c \
-                        else 'was-idle'
+                    state = 'existing-running' \
+                        if prev.running.get(inst) == c else 'existing-idle'
                     out.append((
-                        'sync:cached-not-running:existing-generation,%s,%s,%s'
-                        % (state, old, how(inst)),
+                        'sync:cached-not-running:%s:%s' % (state, old),
                         'cache/%s generation %d has container %s (not '
                         'finished, not in cleanup) but running/%s is %r '
-                        'after the synchronisation'
-                        % (inst, gen, c, inst, link)))
+                        'after the synchronisation [%s]'
+                        % (inst, gen, c, inst, link, how(inst))))
             else:
                 self._count('i2_finished_generation_evaluations')
                 if link is not None and not (
                         link == c and prev.running.get(inst) == c):
                     out.append((
-                        'sync:finished-or-cleanup-generation-running:%s'
-                        % how(inst),
+                        'sync:finished-or-cleanup-generation-running',
                         'cache/%s generation %d has container %s that '
                         'finished or is in cleanup, but running/%s is %r '
-                        'after the synchronisation'
-                        % (inst, gen, c, inst, link)))
+                        'after the synchronisation [%s]'
+                        % (inst, gen, c, inst, link, how(inst))))
         for name, target in sorted(cur.running.items()):
             cached = prev.cache.get(name)
             ident = cur.ident.get(target) if target else None
